@@ -356,7 +356,8 @@ func resolveCase(f map[string]string, url, da string) string {
 	if scen == "move" {
 		a0, b0 := c17Touched(seenA), c17Touched(seenB)
 		res.set(name, "127.0.0.2")
-		closeA() // server a goes away: its connections end
+		time.Sleep(100 * time.Millisecond) // the one-query-per-connection servers end their quic connection 60 ms after the reply
+		closeA()                           // server a goes away: its connections end
 		aClosed = true
 		time.Sleep(120 * time.Millisecond)
 		x2 := exchange(2)
